@@ -19,7 +19,14 @@ PROP = dict(
                     "content must equal the contiguous append on an identical target, also when a later part is refused) - on "
                     "the cursor forms 'first fragment + list', 'everything in the list', 'left inside the first fragment by an "
                     "earlier read' and on the contiguous copy; fragments, fragment lists and targets are separate exact-size "
-                    "heap blocks under ASan.  C++ leg: message::read/length over every fragment list of lengths 0..8 (10) and "
+                    "heap blocks under ASan.  Consumers of fragmented messages: mpt_dispatch_hash on 1944 command messages (9 words that "
+                    "are prefixes/extensions of each other, 6 of them registered; NUL / space separator / other message type; first "
+                    "argument of 0..8 bytes, optional second argument, trailing separator, leading blanks), each dispatched contiguous "
+                    "and in every cut into 2 and 3 fragments, variants with empty fragments and 30 PRNG lists up to 8 fragments: "
+                    "handler called, return value and ev.id equal the contiguous run, which must reach the handler of the word.  "
+                    "C++ leg: graphic::target() on 203 (thorough 2755) layout:graph:world[:dim] addresses against a graphic with one "
+                    "layout, two graphs, two worlds each, called twice per message, every cut into 2..5 fragments (empty ones "
+                    "included) + 20 PRNG lists: return codes, destination, remaining length equal the contiguous run; message::read/length over every fragment list of lengths 0..8 (10) and "
                     "10k (300k) PRNG lists.  Exploration, not proof: longer strings and other alphabets are sampled."),
         level_note=("trusts the flat reference computations in harness/c17_msg.c / c17_cxx.cpp (read, length, byte/set/predicate "
                     "search, copy, NUL-separated arguments, append, ring range) and gcc ASan/UBSan; mpt_memtok, mpt_message_argv "
